@@ -379,6 +379,9 @@ const c09Rule = "rapid-drawn (options x input x entry point): the C02 option mat
 
 func TestC09Pinned(t *testing.T) {
 	stat.For("C09").SetRule(c09Rule)
+	if shard != 0 {
+		return
+	}
 	mk := func(o wopts, segs []gen.Seg, entry, zero string) c09Case {
 		d := delivery{Mode: "write"}
 		if entry == "readfrom" {
@@ -426,17 +429,21 @@ func TestC09(t *testing.T) {
 	checkProp(t, "C09", "C09/conformance", pick(12000, 150000), drawC09, runC09)
 }
 
-// TestC09Huge (thorough only): a stream of more than 4 GiB through the Writer: the content
+// TestC09Huge (quick: sequential Writer only): a stream of more than 4 GiB through the Writer: the content
 // checksum (and the size field) must still be what the specification designates once the
 // total no longer fits 32 bits. The independent parser hashes and counts without retaining.
 func TestC09Huge(t *testing.T) {
 	rec := stat.For("C09")
 	rec.SetRule(c09Rule)
-	if !thorough() || shard != 0 {
+	if shard != nshards-1 { // (the last shard: in the quick tier the other one runs the pinned cases)
 		return
 	}
 	const total = uint64(1)<<32 + 4<<20 + 43
-	for _, conc := range []int{1, 4} {
+	concs := []int{1}
+	if thorough() {
+		concs = []int{1, 4}
+	}
+	for _, conc := range concs {
 		var sink inst.Sink
 		w := lz4.NewWriter(&sink)
 		if err := w.Apply(lz4.BlockSizeOption(lz4.Block4Mb), lz4.ChecksumOption(true), lz4.SizeOption(total), lz4.ConcurrencyOption(conc)); err != nil {
